@@ -357,7 +357,10 @@ def handleHeaderFrame (s : Srv) (st : Strm) (fr : Frame) : Srv × Strm × Option
     | .headers _ eh p f => (false, eh, p, f)
     | .continuation eh f => (true, eh, none, f)
     | _ => (false, false, none, [])
-  if st.headersFinished && !Frame.hasFlag fr.flags Gen.c_FlagEndStream then
+  -- a trailer section that does not end the stream: a malformed request. When the block ends in this frame it is
+  -- decoded like any block and then answered with a stream error; otherwise the connection error stays (F67 repaired)
+  let notLast := st.headersFinished && !Frame.hasFlag fr.flags Gen.c_FlagEndStream
+  if notLast && !Frame.hasFlag fr.flags Gen.c_FlagEndHeaders then
     (s, st, some (.goAway Gen.c_ProtocolError "stream not open"))
   else
   -- a trailer block that goes on in CONTINUATION: a block is in progress again
@@ -372,7 +375,8 @@ def handleHeaderFrame (s : Srv) (st : Strm) (fr : Frame) : Srv × Strm × Option
     let blockStart := !st.fieldSeen
     let b := st.prevHdr ++ frag
     let st := { st with prevHdr := [] }
-    fieldLoop (b.length + 1) s st blockStart eh 0 b
+    let x := fieldLoop (b.length + 1) s st blockStart eh 0 b
+    if notLast && x.2.2.isNone then (x.1, x.2.1, some (.reset Gen.c_ProtocolError)) else x
 
 /-- `validateRequestPseudoHeaders` -/
 def validatePseudo (st : Strm) : Option SErr :=
